@@ -9,7 +9,7 @@ CONSTANTS
   CR = {"ok"}
   FK = {0, 1, 2}
   FR = {"ok", "err"}
-  Kinds = {"cfg", "nocfg"}
+  Kinds = {"cfg"}
   Reqs = {"a"}
   Cfgs = {"k", "m"}
   Emit = TRUE
